@@ -243,8 +243,8 @@ func c33Exec(c *Case) {
 				}
 			})
 			keys := c33S3Fake.take()
-			if errs > 0 || len(keys) == 0 {
-				c.Stat("s3-upload-errors")
+			if errs > 0 || len(keys) != n/max(workers, 1)*max(workers, 1) {
+				c.Oracle("uploads-did-not-reach-the-fake-endpoint", fmt.Sprintf("%q: %d upload errors, %d keys observed", l, errs, len(keys)))
 			}
 			eff := prefix
 			if eff == "" {
@@ -266,8 +266,8 @@ func c33Exec(c *Case) {
 				st.Upload([]byte("payload"), nil, enc)
 			})
 			keys := c33GCSFake.take()
-			if len(keys) == 0 {
-				c.Stat("gcs-no-keys-observed")
+			if len(keys) != n/max(workers, 1)*max(workers, 1) {
+				c.Oracle("uploads-did-not-reach-the-fake-endpoint", fmt.Sprintf("%q: %d keys observed", l, len(keys)))
 			}
 			eff := prefix
 			if eff == "" {
@@ -301,7 +301,7 @@ func c33Gen(g *Gen) {
 	}
 	// real uploads
 	prefixes := []string{"", "vgi-rpc/", "a/b/", "x", "tenant-1/2026/09/"}
-	for i := 0; i < g.N(8, 40); i++ {
+	for i := 0; i < g.N(6, 40); i++ {
 		p := Pick(r, prefixes)
 		var ls []string
 		for k := 0; k < r.Range(1, 3); k++ {
@@ -309,7 +309,7 @@ func c33Gen(g *Gen) {
 		}
 		g.Case(ls...)
 	}
-	for i := 0; i < g.N(8, 40); i++ {
+	for i := 0; i < g.N(6, 40); i++ {
 		p := Pick(r, prefixes)
 		var ls []string
 		for k := 0; k < r.Range(1, 3); k++ {
